@@ -1474,6 +1474,102 @@ theorem no_resp_return_step {cfg : Cfg} {s : State} (e : Ev) (c : Nat)
   | subscribe => simp only [step]; (repeat' split) <;> simp_all
   | unsubscribe => simpa [step] using hne
 
+/-! ### which of the two guards a finished failure path leaves behind -/
+
+/-- `regClosed` is raised only by `closeAndDrain`, and once the failure path has finished every one
+of its statements has run. -/
+structure CInv (cfg : Cfg) (s : State) : Prop where
+  only : s.regClosed = true → FailStep.closeAndDrain ∈ cfg.failOrder
+  failing : ∀ todo w g, s.reader = .failing todo w g →
+    ∃ pre, cfg.failOrder = pre ++ todo ∧ (FailStep.closeAndDrain ∈ pre → s.regClosed = true)
+  fin : ∀ g, s.reader = .finished g → FailStep.closeAndDrain ∈ cfg.failOrder → s.regClosed = true
+
+theorem cinv_init (cfg : Cfg) : CInv cfg State.init := by
+  constructor <;> simp [State.init]
+
+theorem cinv_step {cfg : Cfg} {s : State} (h : CInv cfg s) (e : Ev) : CInv cfg (step cfg s e) := by
+  have keep : ∀ s' : State, s'.reader = s.reader → s'.regClosed = s.regClosed → CInv cfg s' := by
+    intro s' h1 h2
+    exact ⟨by rw [h2]; exact h.only, by rw [h1, h2]; exact h.failing, by rw [h1, h2]; exact h.fin⟩
+  cases e with
+  | alloc c => simp only [step]; split <;> first | exact keep _ rfl rfl | exact h
+  | skip => exact keep _ rfl rfl
+  | register c => simp only [step]; (repeat' split) <;> first | exact keep _ rfl rfl | exact h
+  | write c => simp only [step]; (repeat' split) <;> first | exact keep _ rfl rfl | exact h
+  | writeFail c => simp only [step]; (repeat' split) <;> first | exact keep _ rfl rfl | exact h
+  | recv c => simp only [step]; (repeat' split) <;> first | exact keep _ rfl rfl | exact h
+  | timeout c => simp only [step]; (repeat' split) <;> first | exact keep _ rfl rfl | exact h
+  | cancel c => simp only [step]; (repeat' split) <;> first | exact keep _ rfl rfl | exact h
+  | cleanup c => simp only [step]; (repeat' split) <;> first | exact keep _ rfl rfl | exact h
+  | subscribe => simp only [step]; (repeat' split) <;> first | exact keep _ rfl rfl | exact h
+  | unsubscribe => exact keep _ rfl rfl
+  | rmatch f =>
+    simp only [step]; split
+    · (repeat' split) <;> first
+        | exact h
+        | exact ⟨h.only, by intro todo w g hx; simp at hx, by intro g hx; simp at hx⟩
+    · exact h
+  | deliver =>
+    simp only [step]; split
+    · exact ⟨by simpa [push] using h.only, by intro todo w g hx; simp [push] at hx, by intro g hx; simp [push] at hx⟩
+    · exact ⟨h.only, by intro todo w g hx; simp at hx, by intro g hx; simp at hx⟩
+    · exact h
+  | readErr =>
+    simp only [step]; split
+    · refine ⟨h.only, ?_, by intro g hx; simp at hx⟩
+      intro todo w g hx
+      simp only [Reader.failing.injEq] at hx
+      exact ⟨[], by rw [← hx.1]; rfl, by simp⟩
+    · exact h
+  | failStep =>
+    -- one statement moves from `todo` to `pre`
+    have adv : ∀ (st : FailStep) (r : List FailStep) (w : List (Nat × Nat)) (g : Nat) (s' : State) (w' : List (Nat × Nat)),
+        s.reader = .failing (st :: r) w g → s'.reader = .failing r w' g →
+        (s'.regClosed = true ↔ (s.regClosed = true ∨ st = .closeAndDrain)) → CInv cfg s' := by
+      intro st r w g s' w' hr hr' hrc
+      obtain ⟨pre, hpre, hc⟩ := h.failing _ _ _ hr
+      refine ⟨?_, ?_, by intro g' hx; rw [hr'] at hx; simp at hx⟩
+      · intro hx
+        rcases hrc.1 hx with h1 | h1
+        · exact h.only h1
+        · rw [hpre, h1]; simp
+      · intro todo w2 g2 hx
+        rw [hr'] at hx
+        simp only [Reader.failing.injEq] at hx
+        refine ⟨pre ++ [st], by rw [← hx.1, hpre]; simp, ?_⟩
+        intro hm
+        simp only [List.mem_append, List.mem_singleton] at hm
+        rcases hm with hm | hm
+        · exact hrc.2 (Or.inl (hc hm))
+        · exact hrc.2 (Or.inr hm.symm)
+    simp only [step]; split
+    · rename_i r w g hr; exact adv _ r w g _ w hr rfl (by simp)
+    · rename_i r w g hr; exact adv _ r w g _ w hr rfl (by simp)
+    · rename_i r w g hr; exact adv _ r w g _ _ hr rfl (by simp)
+    · rename_i r w g hr; exact adv _ r w g _ _ hr rfl (by simp)
+    · rename_i r g hr; exact adv _ r [] g _ [] hr rfl (by simp)
+    · rename_i r e w g hr
+      obtain ⟨pre, hpre, hc⟩ := h.failing _ _ _ hr
+      refine ⟨by simpa [push] using h.only, ?_, by intro g' hx; simp [push] at hx⟩
+      intro todo w2 g2 hx
+      simp only [push, setCall_reader, Reader.failing.injEq] at hx
+      exact ⟨pre, by rw [← hx.1]; exact hpre, by simpa [push] using hc⟩
+    · rename_i e w g hr
+      obtain ⟨pre, hpre, hc⟩ := h.failing _ _ _ hr
+      refine ⟨by simpa [push] using h.only, ?_, by intro g' hx; simp [push] at hx⟩
+      intro todo w2 g2 hx
+      simp only [push, setCall_reader, Reader.failing.injEq] at hx
+      exact ⟨pre, by rw [← hx.1]; exact hpre, by simpa [push] using hc⟩
+    · rename_i g hr
+      obtain ⟨pre, hpre, hc⟩ := h.failing _ _ _ hr
+      refine ⟨h.only, by intro todo w g' hx; simp at hx, ?_⟩
+      intro _ _ hm
+      exact hc (by rw [hpre] at hm; simpa using hm)
+    · exact h
+
+theorem Reachable.cinv {cfg : Cfg} {s : State} (hs : Reachable cfg s) : CInv cfg s :=
+  Reachable.induction (P := CInv cfg) (cinv_init cfg) (fun _ e _ ih => cinv_step ih e) hs
+
 /-! ### residue -/
 
 def AllRemove (cfg : Cfg) : Prop :=
